@@ -82,6 +82,9 @@ def optimal_grouping(R, L, h, p):
         h_L (numpy.ndarray): compressed profile heights
         cn2_L (numpy.ndarray): compressed profile cn2dh per layer
     '''
+    # (floats: |h_i - h_j| would wrap around for heights stored as unsigned integers)
+    h = numpy.asarray(h, dtype=float)
+    p = numpy.asarray(p, dtype=float)
     N = len(p)
 
     # set initial best grouping to be (approx) equal splits 
